@@ -53,6 +53,94 @@ add('C07', 'netsim', 'exploration',
     'a run that exhausts its poll/event budget is reported as a hang.', TRUST,
     'DESIGN.md section 6 C07')
 
+add('C02', 'netsim', 'exploration',
+    'deterministic simulation: metamorphic re-segmentation of one server '
+    'byte stream (seeded cut sets + exhaustive cut sets for short streams)',
+    'One byte stream (valid, violating, UTF-8, compressed, handshake '
+    'variants) is replayed in a single read and under seeded cut sets '
+    '(1-byte delivery, structural boundaries +-1); events and the raw bytes '
+    'written by the client must be identical.  Streams with a frame part of '
+    '<= 12 bytes get all 2^(n-1) cut sets, the reply gets every single cut '
+    'and all pairs/triples near its terminator - finite enumerations of the '
+    'simulator\'s own schedule space at a small bound; everything else is '
+    'sampled.', TRUST, 'DESIGN.md section 6 C02')
+
+add('C03', 'netsim', 'exploration',
+    'deterministic simulation: seeded API call workloads in every '
+    'connection state, every sendall decoded by an independent client-frame '
+    'decoder',
+    'Seeded batches of send_*/close calls (boundary lengths, all planes, '
+    'adversarial masking keys, bad arguments) at Connecting, Connected, '
+    'Ready, inside Closing, after close() and after Disconnected, with and '
+    'without negotiated compression.  The encoding clauses are functions of '
+    '(payload, key): they are boundary-swept and sampled, not proven; the '
+    'simulator contributes the state dimension and the always-on decoder.',
+    TRUST, 'DESIGN.md section 6 C03')
+
+add('C05', 'netsim', 'exploration',
+    'deterministic simulation: UTF-8 verdict sweep through the real receive '
+    'path + fail-fast measured on the virtual clock',
+    'Representative prefix per validator context x all 256 next bytes x 4 '
+    'suffixes x 3 splittings, seeded strings with one defect each, sent as '
+    'fragmented / segmented / compressed text or as a close reason; in the '
+    'stall family the peer goes silent right after the first offending byte '
+    'and the ProtocolError must be yielded at that virtual instant.  Two '
+    'independent references (RFC 3629 range table, CPython) must agree.  '
+    'This is a black-box sweep, not the exhaustive state-product proof.',
+    TRUST, 'DESIGN.md section 6 C05 and section 10')
+
+add('C06', 'netsim', 'exploration',
+    'deterministic simulation: message histories against an independent '
+    'RFC 7692 peer for all 256 parameter combinations',
+    'All 8x8x2x2 negotiated parameter combinations are cycled with seeded '
+    'header spellings; histories of up to 40 messages each way with '
+    'back-references, fragmentation inside the deflate stream, control '
+    'frames between fragments, peer variants (levels, stored/fixed blocks, '
+    'context resets, BFINAL=1), compress=False sends, a negative family '
+    'judged by a reference inflater, and no-offer / omitted / out-of-range '
+    'controls.  Sampled histories, complete over the parameter grid.', TRUST,
+    'DESIGN.md section 6 C06')
+
+add('C08', 'netsim', 'exploration',
+    'deterministic simulation: closing-handshake histories (client first, '
+    'server first, crossing) with application sends at every event',
+    'Seeded orders of application close() (any event incl. Connected, second '
+    'close), server Close (valid codes, empty payload), messages before and '
+    'between, sends inside and after Closing; oracle on the decoded wire and '
+    'on events.  Single-threaded histories only (threads: C12).', TRUST,
+    'DESIGN.md section 6 C08')
+
+add('C09', 'netsim', 'fault_enumeration',
+    'deterministic simulation: systematic single-fault sweep over every '
+    'socket operation and every byte offset of 16 base scenarios, then '
+    'seeded multi-fault runs',
+    'For each base scenario the fault-free operation log is recorded and one '
+    'run is made per (operation, fault kind): resolution, every refused-'
+    'address subset, TLS handshake, every sendall / recv / selector wait, '
+    'EOF and RST at every byte offset, shutdown/close raising.  Complete '
+    'over that finite fault space in the thorough tier (byte offsets above '
+    '420 are sampled in quick); base scenarios themselves are a chosen set.',
+    TRUST, 'DESIGN.md section 6 C09')
+
+add('C10', 'netsim', 'exploration',
+    'deterministic simulation: request parsed by an independent HTTP parser, '
+    'reply mutated per seed, reconnect chains for key freshness',
+    'Seeded URL shapes and constructor options; the reply is computed from '
+    'the key in the request with seeded order/case/whitespace/folding/size/'
+    'segmentation and one of the wrong-accept, status, Upgrade or size '
+    'variants; Ready iff the reference says must-Ready.  One open known '
+    'finding (letter-case variants of the accept value).', TRUST,
+    'DESIGN.md section 6 C10')
+
+add('C14', 'netsim', 'exploration',
+    'deterministic simulation: Ping-dense streams x auto_pong x application '
+    'reactions x close x Pong write faults, oracle on the decoded wire',
+    'Seeded streams with up to 20 Pings anywhere (between fragments, many '
+    'per read, in the reply read, next to a Close), auto_pong on/off, an '
+    'application writing at every event, close() at a seeded event, a '
+    'transport fault on the k-th Pong write.', TRUST,
+    'DESIGN.md section 6 C14')
+
 ORDER = ['C01', 'C02', 'C03', 'C04', 'C05', 'C06', 'C07', 'C08', 'C09', 'C10',
          'C11', 'C12', 'C13', 'C14', 'C15', 'C16', 'C17', 'C18', 'C19']
 
